@@ -3,11 +3,49 @@ from pyvc.contract import contract
 
 Q = 'biogeme.models.piecewise.'
 
+_REPLAY_VARIABLES = """
+from biogeme.models.piecewise import piecewise_variables
+cands = []
+mt = m.get('thresholds[]')
+if isinstance(mt, list) and len(mt) >= 2:
+    cands.append([None if v is None else float(v) for v in mt])
+cands += [[1.0, 2.0], [2.0, None], [None, 5.0], [1.0, 2.0, 4.0], [None, 1.0, None]]
+violated = False
+for t in cands:
+    if all(v is None for v in t) or None in t[1:-1]:
+        continue
+    try:
+        got = piecewise_variables('x', list(t))
+    except Exception as e:
+        violated = True
+        detail = f'piecewise_variables("x", {t}) raised {type(e).__name__}: {e}'
+        break
+    if len(got) != len(t) - 1:
+        violated = True
+        detail = f'piecewise_variables("x", {t}) returned {len(got)} variables for {len(t) - 1} interval(s): {[str(g) for g in got]}'
+        break
+"""
+
+_WELL_FORMED = ("len(thresholds) >= 2 and not (thresholds[0] is None and thresholds[len(thresholds) - 1] is None and len(thresholds) == 2) "
+                "and forall(lambda q: thresholds[q] is not None, 1, len(thresholds) - 1)")
+
 contract(Q + 'piecewise_variables', 'C17',
          types={'variable': 'str', 'thresholds': 'list[float | None]'},
-         raises={'BiogemeError': "len(thresholds) == 0 or forall(lambda q: thresholds[q] is None, 0, len(thresholds)) "
-                                 "or exists(lambda q: thresholds[q] is None, 1, len(thresholds) - 1)"},
-         ensures={'one_variable_per_interval': "len(result) == len(thresholds) - 1"})
+         requires={'well_formed': _WELL_FORMED},
+         # the loop re-binds the local list (`results += [...]`), so the loop rule havocs the container fields of every
+         # list and the frame obligation cannot be generated from the loop rule; the frame (no pre-existing list is
+         # mutated) is decided instead by the static obligation C17:static:piecewise_variables:mutates-only-own-list
+         # (contracts/c17_obligations.py); the thresholds facts needed after the loop are carried by the invariant
+         modifies=[], check_frame=False,
+         ensures={'one_variable_per_interval': "len(result) == len(thresholds) - 1",
+                  'thresholds_length_kept': "len(thresholds) == old(len(thresholds))"},
+         invariants={1: {'clauses': {
+             'count': "len(results) == 1 + _k",
+             'own_list': "results is not thresholds and c17_allocated(results)",
+             'thresholds_kept': "len(thresholds) == eye and forall(lambda q: thresholds[q] is not None, 1, len(thresholds) - 1) "
+                                "and (thresholds[0] is None) == old(thresholds[0] is None) "
+                                "and (thresholds[len(thresholds) - 1] is None) == old(thresholds[len(thresholds) - 1] is None)"}}},
+         replay=_REPLAY_VARIABLES)
 
 # Assumed: the tree constructors build a fresh node and touch nothing else (their values are decided natively by the
 # bounded stand-ins bounded/c17_piecewise.py); only the threshold handling of the builder is under proof here.
@@ -18,3 +56,24 @@ for _q in (E + 'binary_expressions.bioMin.__init__', E + 'binary_expressions.bio
              note='assumed: constructor of an expression node (fresh object, no other effect)')
 contract(E + 'base_expressions.Expression.__sub__', 'C17', verify=False, pure=True, returns='Expression', ensures={'t': 'True'},
          note='assumed: operator builds a fresh Minus node')
+
+for _q in (E + 'beta_parameters.Beta.__init__', E + 'nary_expressions.bioMultSum.__init__'):
+    contract(_q, 'C17', verify=False, modifies=[], ensures={'t': 'True'},
+             note='assumed: constructor of an expression node (fresh object, no other effect)')
+for _m in ('__mul__', '__rmul__', '__add__'):
+    contract(E + f'base_expressions.Expression.{_m}', 'C17', verify=False, pure=True, returns='Expression', ensures={'t': 'True'},
+             note='assumed: operator builds a fresh node')
+
+contract(Q + 'piecewise_formula', 'C17',
+         types={'variable': 'str', 'thresholds': 'list[float | None]', 'betas': 'list[Expression]'},
+         requires={'well_formed': _WELL_FORMED},
+         raises={'BiogemeError': "len(betas) != len(thresholds) - 1"},
+         modifies=[],
+         ensures={'t': 'True'})
+
+contract(Q + 'piecewise_as_variable', 'C17',
+         types={'variable': 'str', 'thresholds': 'list[float | None]', 'betas': 'list[Expression]'},
+         requires={'well_formed': _WELL_FORMED, 'at_least_two_intervals': "len(thresholds) >= 3"},
+         raises={'BiogemeError': "len(betas) != len(thresholds) - 2"},
+         modifies=[],
+         ensures={'t': 'True'})
